@@ -12,6 +12,7 @@ use std::sync::atomic::{AtomicUsize, Ordering};
 
 mod cipher;
 mod codec;
+mod grpc;
 mod limiter;
 mod mojang;
 mod conn;
@@ -76,6 +77,7 @@ fn main() {
         "cipher" => cipher::schedules(seed),
         "mojang" => mojang::request(seed),
         "mchash" => mojang::mchash(seed),
+        "grpc" => grpc::round_trip(seed),
         "limiter_big" => limiter::big_limit(seed),
         "limiter" => limiter::sweep(seed),
         "cookie_unparseable" => conn::cookie_unparseable(seed),
